@@ -1,4 +1,6 @@
 import ast
+import io
+import tokenize
 from enum import Enum
 from enum import Flag
 from functools import singledispatch
@@ -96,12 +98,22 @@ def value_code_repr(obj):
 
     result = code_repr_dispatch(obj)
 
-    try:
-        ast.parse(result)
-    except SyntaxError:
+    if not is_expression(result):
         return real_repr(HasRepr(type(obj), result))
 
     return result
+
+
+def is_expression(code):
+    """returns True if the code can be used as a python expression"""
+    try:
+        ast.parse(code, mode="eval")
+        tokens = list(tokenize.generate_tokens(io.StringIO(code).readline))
+    except (SyntaxError, tokenize.TokenError):
+        return False
+
+    # a comment would hide the code which follows the representation
+    return not any(token.type == tokenize.COMMENT for token in tokens)
 
 
 # -8<- [start:Enum]
